@@ -150,6 +150,31 @@ theorem no_mode_rotation_syncs_closed_file_witness :
     (durable .v2 Driver.crc32 a.rot.w.store).map (·.ts) = [1] ∧ Call.sync 1 true ∈ a.rot.w.trace := by
   decide +kernel
 
+/-! ## the schedule of the real loop, `Shutdown` messages included -/
+
+/-- bursts of mailbox messages handled at the top of the loop / inside the group-commit wait / in the
+    drain loop, a `Shutdown` stopping the actor or (inside the wait) not, callers after a stop never
+    handled: every write acknowledged `Ok` survives every crash — all bursts, batch sizes, faults -/
+theorem durable_survives_bursts (fmt : Format) (crc : Bytes → Nat) (φ : Nat → Outcome) (maxSize maxEntries : Nat)
+    (bs : List (List Msg)) (hb : ∀ g ∈ bs, ∀ m ∈ g, m.Ok fmt crc) :
+    ∀ r ∈ (Sched.runBursts maxEntries φ fmt crc { a := Actor.init maxSize } bs).a.acks, r.res = .ok →
+      ∀ t st, r.io ≤ t →
+        (Sched.runBursts maxEntries φ fmt crc { a := Actor.init maxSize } bs).a.rot.w.storeAt t = some st →
+        r.entry ∈ durable fmt crc st ∨
+          r.entry.ts < (Sched.runBursts maxEntries φ fmt crc { a := Actor.init maxSize } bs).a.tbound :=
+  survives_of_ainv (sinv_runBursts maxEntries φ bs _ ⟨inv_init fmt crc maxSize, Nat.le_refl _⟩ hb).1
+
+/-- a `Shutdown` inside the group-commit wait does NOT stop the actor (observed, outside the
+    property): write 1 opens the wait, the shutdown is answered, write 2 is still handled and made
+    durable; the same shutdown as the FIRST message of the burst stops it — write 1 is never handled -/
+theorem shutdown_inside_wait_does_not_stop_witness :
+    let s := Sched.runBursts 8 (fun _ => .ok) .v2 Driver.crc32 { a := Actor.init 1000 }
+      [[.ev (.write w1), .shutdown, .ev (.write w2)]]
+    s.alive = true ∧ s.a.acks.map (fun r => (r.id, r.res)) = [(2, .ok), (1, .ok)] ∧
+    (let s' := Sched.runBursts 8 (fun _ => .ok) .v2 Driver.crc32 { a := Actor.init 1000 }
+      [[.shutdown, .ev (.write w1)]]
+     s'.alive = false ∧ s'.dropped = [1] ∧ s'.a.acks = []) := by decide +kernel
+
 /-! ## the configuration constructors -/
 
 /-- `WalConfig::always_fsync` and `WalConfig::test` select the policy `durable_survives` is about;
